@@ -8,6 +8,10 @@
 //   - stable variants: it is the smallest index among the live players whose key
 //     is equivalent to the winner's.
 // Nothing is asserted once every player is exhausted (DESIGN §3.3).
+//
+// Two targets share drivers and oracle: `loser_tree` (k <= 20, streams <= 12/24 keys, every detail from the choice
+// bytes) and `loser_tree_scale` (SCALE classes: up to ~1100 players with counts next to powers of two, streams of
+// several thousand keys, thousands of replays after the first exhaustion; see the comment at the target).
 #include "../engine/pbt.hpp"
 
 #include <algorithm>
@@ -23,6 +27,16 @@ struct Key {
     uint32_t tag; // identifies (player, position); never compared
 };
 
+//! work bound per library call (init / delete_min_insert): a replay or tournament loop that stops making progress would
+//! otherwise end as a wall-clock hang (= inconclusive). 64*16*(k+16) comparator calls per call is far above what any
+//! correct loser tree needs (this one: <= 2 per tree level per replay, <= 2 per node in init; even an O(k log k)
+//! rebuild per replay stays below 16*(k+16)); exceeding it is the labelled failure C09/runaway-comparisons.
+long g_cmp_calls = 0, g_cmp_budget = 0;
+inline void arm_budget(int k) {
+    g_cmp_calls = 0;
+    g_cmp_budget = 64L * 16L * ((long)k + 16);
+}
+
 //! stateful comparator by key only; a tree that default-constructs its comparator
 //! instead of copying the one passed is caught through `salt`
 struct DirCmp {
@@ -32,6 +46,9 @@ struct DirCmp {
     explicit DirCmp(bool d) : desc(d), salt(0x5a17) {}
     bool operator()(const Key& a, const Key& b) const {
         if (salt != 0x5a17) pbt::fail("C09/comparator-lost", "tree used a comparator that is not a copy of the one passed");
+        if (++g_cmp_calls > g_cmp_budget)
+            pbt::fail("C09/runaway-comparisons", "more than " + std::to_string(g_cmp_budget) +
+                                                     " comparator calls inside one init()/delete_min_insert() call: the loop does not terminate");
         return desc ? b.key < a.key : a.key < b.key;
     }
 };
@@ -44,6 +61,7 @@ struct Shape {
     int order;       // insert_start order: 0 ascending, 1 descending, 2 rotated
     int storage = 0; // pointer variants: 0 keys in stable arrays, 1 one slot per player refilled in place, 2 fresh heap key per feed (previous one freed)
     bool arbitrary;  // streams not sorted
+    int max_steps = 2000; // history bound (never reached by target loser_tree: <= 20 * 24 keys)
     std::vector<std::vector<Key>> stream; // stable storage for the pointer variants
 };
 
@@ -57,13 +75,18 @@ struct Stats {
     bool started_exhausted = false;
     bool all_exhausted_at_start = false;
     bool drained = false;
+    int replays_after_exhaustion_n = 0; // replays made while some player was exhausted and a live one remained
+    int exhausted_at_start = 0;
 };
 
 //! winner oracle
-void check_winner(const Shape& sh, const std::vector<size_t>& cur, uint32_t w, const char* when, int step, Stats& st) {
+//! (`live_known`: number of live players if the driver's model already has it -- saves one pass over the players)
+void check_winner(const Shape& sh, const std::vector<size_t>& cur, uint32_t w, const char* when, int step, Stats& st, int live_known = -1) {
     const DirCmp cmp(sh.desc);
     int live = 0;
-    for (int p = 0; p < sh.k; ++p) live += cur[p] < sh.stream[p].size();
+    if (live_known >= 0) live = live_known;
+    else
+        for (int p = 0; p < sh.k; ++p) live += cur[p] < sh.stream[p].size();
     PBT_LOG("  " << when << " #" << step << ": min_source()=" << (w == (uint32_t)-1 ? -1 : (long)w) << "\n");
     if (live == 0) return; // every player exhausted: the statement says nothing
     PBT_CHECK(w < (uint32_t)sh.k, "C09/winner-not-a-player",
@@ -96,6 +119,7 @@ void check_winner(const Shape& sh, const std::vector<size_t>& cur, uint32_t w, c
 template <class Tree>
 void drive_guarded(const Shape& sh, Stats& st) {
     const int k = sh.k;
+    arm_budget(k);
     Tree lt((typename Tree::Source)k, DirCmp(sh.desc));
     std::vector<size_t> cur(k, 0);
     const bool copying = sh.variant == 0;
@@ -133,12 +157,16 @@ void drive_guarded(const Shape& sh, Stats& st) {
         if (!kp) ++nexh;
     }
     if (nexh) st.started_exhausted = true;
+    st.exhausted_at_start = nexh;
     if (nexh == k) st.all_exhausted_at_start = true;
+    arm_budget(k);
     lt.init();
+    arm_budget(k);
     check_winner(sh, cur, lt.min_source(), "after init", 0, st);
     int live = k - nexh;
+    const bool big = k > 40; // scale classes only
     bool exhausted_seen = nexh > 0;
-    for (int step = 1; live > 0 && step <= 2000; ++step) {
+    for (int step = 1; live > 0 && step <= sh.max_steps; ++step) {
         uint32_t w = lt.min_source(); // checked above: a live player
         ++cur[w];
         const Key* kp = feed((int)w);
@@ -150,11 +178,12 @@ void drive_guarded(const Shape& sh, Stats& st) {
         }
         PBT_LOG("  delete_min_insert(" << (kp ? std::to_string(kp->key) : std::string("nullptr, sup")) << ") for player " << w << "\n");
         lt.delete_min_insert(kp, kp == nullptr);
+        arm_budget(k);
         scratch.key = sh.desc ? 2000000000 : -2000000000;
         scratch.tag = 0xdeadbeef;
         ++st.replays;
-        if (after_exhaustion && live > 0) st.replay_after_exhaustion = true;
-        check_winner(sh, cur, lt.min_source(), "after delete_min_insert", step, st);
+        if (after_exhaustion && live > 0) st.replay_after_exhaustion = true, ++st.replays_after_exhaustion_n;
+        check_winner(sh, cur, lt.min_source(), "after delete_min_insert", step, st, big ? live : -1);
     }
     if (live == 0) st.drained = true;
 }
@@ -162,6 +191,7 @@ void drive_guarded(const Shape& sh, Stats& st) {
 template <class Tree>
 void drive_unguarded(const Shape& sh, const Key& sentinel, Stats& st) {
     const int k = sh.k;
+    arm_budget(k);
     Tree lt((typename Tree::Source)k, sentinel, DirCmp(sh.desc));
     std::vector<size_t> cur(k, 0);
     const bool copying = sh.variant == 2;
@@ -189,9 +219,11 @@ void drive_unguarded(const Shape& sh, const Key& sentinel, Stats& st) {
         scratch.key = sh.desc ? 2000000000 : -2000000000;
         scratch.tag = 0xdeadbeef;
     }
+    arm_budget(k);
     lt.init();
+    arm_budget(k);
     check_winner(sh, cur, lt.min_source(), "after init", 0, st);
-    for (int step = 1; step <= 2000; ++step) {
+    for (int step = 1; step <= sh.max_steps; ++step) {
         uint32_t w = lt.min_source();
         // documented precondition of the unguarded trees: no player may run out of keys -> the
         // history ends as soon as the winner has no further key to feed
@@ -200,6 +232,7 @@ void drive_unguarded(const Shape& sh, const Key& sentinel, Stats& st) {
         const Key* kp = feed((int)w);
         PBT_LOG("  delete_min_insert(" << kp->key << ") for player " << w << "\n");
         lt.delete_min_insert(kp, false);
+        arm_budget(k);
         scratch.key = sh.desc ? 2000000000 : -2000000000;
         scratch.tag = 0xdeadbeef;
         ++st.replays;
@@ -304,4 +337,237 @@ PBT_PROPERTY(loser_tree) {
     }
     if (k >= 3 && dup && (unguarded ? st.replays >= 1 : st.replay_after_exhaustion)) pbt::nontrivial();
     (void)total;
+}
+
+// ---------------------------------------------------------------------------------------------------------------
+// SCALE classes. The statement quantifies over every number of players and every history; target loser_tree stays at
+// k <= 20 and streams of <= 12 (24) keys. Here the class selectors and the exact k come from the choice bytes and the
+// bulk (stream sizes, keys, who starts exhausted) is expanded from a drawn 32-bit seed with a local PRNG:
+//   k        1..20 (with LONG streams) | 2^j-1, 2^j, 2^j+1 for j = 5..8 | 17..40 | 41..300 | 511..513 | 1023..1025 |
+//            301..1100
+//   keys     total <= 1 500 (most) | <= 6 000 | <= 25 000 | <= 100 000 (rare), and total * k <= 3e6 (the oracle looks
+//            at every player after every replay)
+//   streams  uniform 1..2*avg | all equal | 1..4 long streams with ~80 % of the keys | skewed | tiny 1..3
+//   guarded  none | 1 in 20 | 1 in 3 | 9 in 10 players start exhausted; the history runs until every player is
+//            exhausted, i.e. at large k most replays pass exhausted players (replay depth after exhaustion)
+//   keys     1..5 values | all equal | ~total/8 values | wide | disjoint ranges in player order (players run out one
+//            after the other) | disjoint in reverse player order | identical ramps 0,1,2,.. for every player
+// Same protocol, preconditions (unguarded: sentinel strictly greater than every key, history ends before a player
+// runs out) and oracle as target loser_tree.
+namespace {
+struct Rng {
+    uint64_t s;
+    uint64_t next() {
+        uint64_t z = (s += 0x9E3779B97F4A7C15ull);
+        z = (z ^ (z >> 30)) * 0xBF58476D1CE4E5B9ull;
+        z = (z ^ (z >> 27)) * 0x94D049BB133111EBull;
+        return z ^ (z >> 31);
+    }
+    long below(long n) { return n <= 0 ? 0 : (long)(next() % (uint64_t)n); }
+};
+} // namespace
+
+PBT_PROPERTY(loser_tree_scale) {
+    Shape sh;
+    // ---- configuration selectors, then the seed; a selector whose byte is present is decoded from it (zero = simplest),
+    // once the bytes are used up the remaining selectors come from the seeded PRNG
+    int cfg = (int)src.range(0, 7);
+    sh.variant = cfg >> 1;
+    sh.stable = cfg & 1;
+    int fl = (int)src.u8();
+    sh.desc = fl & 1;
+    sh.arbitrary = ((fl >> 1) % 5) == 4;                       // 20 %: streams not sorted
+    sh.order = ((fl >> 4) & 3) == 3 ? 1 + ((fl >> 6) & 1) : 0; // 25 %: insert_start not in ascending player order
+    sh.storage = (int)src.range(0, 2);
+    Rng rng{(src.bits(4) * 0x2545F4914F6CDD1Dull + 0x7654321ull) ^ ((uint64_t)(cfg * 256 + fl) << 40) ^ ((uint64_t)src.size() << 52)};
+    auto weighted = [&](std::initializer_list<unsigned> w) -> size_t {
+        if (!src.exhausted()) return src.weighted(w);
+        unsigned tot = 0;
+        for (unsigned x : w) tot += x;
+        unsigned r = (unsigned)rng.below((long)tot);
+        size_t i = 0;
+        for (unsigned x : w) {
+            if (r < x) return i;
+            r -= x;
+            ++i;
+        }
+        return w.size() - 1;
+    };
+    auto range = [&](int lo, int hi) -> int { return !src.exhausted() ? (int)src.range(lo, hi) : lo + (int)rng.below(hi - lo + 1); };
+    int k;
+    switch (weighted({4, 5, 4, 4, 2, 1, 2})) {
+    case 0: k = range(1, 20); break;
+    case 1: k = (1 << range(5, 8)) + range(0, 2) - 1; break; // 31,32,33 .. 255,256,257
+    case 2: k = range(17, 40); break;
+    case 3: k = range(41, 300); break;
+    case 4: k = 511 + range(0, 2); break;
+    case 5: k = 1023 + range(0, 2); break;
+    default: k = range(301, 1100); break;
+    }
+    sh.k = k;
+    static const long BUDGET[4] = {1500, 6000, 25000, 100000};
+    const long budget = BUDGET[weighted({16, 5, 2, 1})];
+    const int prof = (int)weighted({4, 3, 3, 3, 3});
+    const int keymode = (int)weighted({5, 2, 3, 3, 2, 2, 3});
+    const int exhmode = (int)weighted({4, 2, 2, 2}); // guarded: none / 1 in 20 / 1 in 3 / 9 in 10 players start exhausted
+    const int sentoff = range(0, 2);
+    const bool unguarded = sh.variant >= 2;
+    sh.max_steps = 400000;
+
+    // ---- stream sizes
+    long T = budget / 4 + rng.below(3 * budget / 4 + 1);
+    T = std::min(T, 3000000L / k); // the oracle is O(k) per replay
+    if (T < k) T = k;
+    const long avg = std::max(1L, T / k);
+    std::vector<int> n((size_t)k, 1);
+    switch (prof) {
+    case 0:
+        for (int p = 0; p < k; ++p) n[p] = 1 + (int)rng.below(2 * avg);
+        break;
+    case 1: {
+        long L = avg;
+        if (L >= 8 && rng.below(4) != 0) {
+            long q = 8;
+            while (2 * q <= L) q *= 2;
+            L = q + rng.below(3) - 1;
+        }
+        for (int p = 0; p < k; ++p) n[p] = (int)L;
+        break;
+    }
+    case 2: {
+        const int m = 1 + (int)rng.below(std::min(4, k));
+        const long rest = std::max(1L, (T / 5) / k);
+        for (int p = 0; p < k; ++p) n[p] = 1 + (int)rng.below(2 * rest);
+        for (int j = 0; j < m; ++j) n[(size_t)rng.below(k)] = (int)std::max(1L, (4 * T / 5) / m - rng.below(3));
+        break;
+    }
+    case 3:
+        for (int p = 0; p < k; ++p) {
+            double u = (double)rng.below(1000001) / 1e6;
+            n[p] = 1 + (int)(4.0 * (double)avg * u * u * u);
+        }
+        break;
+    default:
+        for (int p = 0; p < k; ++p) n[p] = 1 + (int)rng.below(3);
+        break;
+    }
+    if (!unguarded && exhmode > 0) {
+        const long num = exhmode == 3 ? 9 : 1, den = exhmode == 1 ? 20 : exhmode == 2 ? 3 : 10;
+        for (int p = 0; p < k; ++p)
+            if (rng.below(den) < num) n[p] = 0;
+    }
+    long total = 0;
+    int maxstream = 0;
+    for (int p = 0; p < k; ++p) total += n[p], maxstream = std::max(maxstream, n[p]);
+
+    // ---- keys (non-negative), sorted by the comparator unless `arbitrary`
+    const long nv = keymode == 0 ? 1 + rng.below(5) : keymode == 2 ? std::max<long>(2, total / 8) : 1000001;
+    const long W = 1 + rng.below(keymode == 4 || keymode == 5 ? 600 : 1);
+    int kmax = 0;
+    sh.stream.resize((size_t)k);
+    for (int p = 0; p < k; ++p) {
+        std::vector<Key>& v = sh.stream[p];
+        v.resize((size_t)n[p]);
+        const long r = keymode == 4 ? p : k - 1 - p; // rank of the player's range in comparator order
+        const long rr = sh.desc ? k - 1 - r : r;
+        for (int j = 0; j < n[p]; ++j) {
+            int x;
+            switch (keymode) {
+            case 1: x = 7; break;
+            case 4:
+            case 5: x = (int)(rr * W + rng.below(W + 1)); break;
+            case 6: x = sh.desc ? 1000000 - j : j; break;
+            default: x = (int)rng.below(nv); break;
+            }
+            v[(size_t)j].key = x;
+            v[(size_t)j].tag = (uint32_t)p * 100000u + (uint32_t)j;
+            kmax = std::max(kmax, x);
+        }
+        if (!sh.arbitrary) {
+            if (sh.desc) std::stable_sort(v.begin(), v.end(), [](const Key& a, const Key& b) { return a.key > b.key; });
+            else std::stable_sort(v.begin(), v.end(), [](const Key& a, const Key& b) { return a.key < b.key; });
+        }
+    }
+    // the constructor sentinel of the unguarded trees: strictly greater (w.r.t. the comparator) than every key
+    const Key* sentinel = new Key{sh.desc ? -1 - sentoff : kmax + 1 + sentoff, 0x5e9717e1u};
+    struct Free {
+        const Key* p;
+        ~Free() { delete p; }
+    } free_sentinel{sentinel};
+
+    static const char* const PROF[5] = {"prof=uniform", "prof=equal_len", "prof=few_long", "prof=skewed", "prof=tiny_streams"};
+    static const char* const KEYMODE[7] = {"keys=1..5_values",        "keys=all_equal",           "keys=moderate", "keys=wide",
+                                           "keys=disjoint_by_player", "keys=disjoint_reversed", "keys=identical_ramps"};
+    if (pbt::verbose()) {
+        PBT_LOG("tlx::" << VARIANT[sh.variant] << "<" << (sh.stable ? "true" : "false") << ", Key, cmp=" << (sh.desc ? "greater" : "less")
+                        << "> k=" << k << " insert_start order=" << (sh.order == 0 ? "ascending" : sh.order == 1 ? "descending" : "rotated")
+                        << (unguarded ? " sentinel=" + std::to_string(sentinel->key) : std::string()) << "\n  scale shape: " << PROF[prof]
+                        << " " << KEYMODE[keymode] << (sh.arbitrary ? " (streams not sorted)" : "") << " total keys=" << total
+                        << " longest stream=" << maxstream << "\n");
+        for (int p = 0; p < k; ++p) {
+            if (p >= 40 && p + 4 < k) {
+                if (p == 40) PBT_LOG("  ...\n");
+                continue;
+            }
+            PBT_LOG("  player " << p << " (" << sh.stream[p].size() << " keys):");
+            for (size_t j = 0; j < sh.stream[p].size() && j < 24; ++j) PBT_LOG(" " << sh.stream[p][j].key);
+            if (sh.stream[p].size() > 24) PBT_LOG(" ... " << sh.stream[p].back().key);
+            if (sh.stream[p].empty()) PBT_LOG(" (exhausted from the start)");
+            PBT_LOG("\n");
+        }
+    }
+
+    Stats st;
+    switch (cfg) {
+    case 0: drive_guarded<tlx::LoserTreeCopy<false, Key, DirCmp>>(sh, st); break;
+    case 1: drive_guarded<tlx::LoserTreeCopy<true, Key, DirCmp>>(sh, st); break;
+    case 2: drive_guarded<tlx::LoserTreePointer<false, Key, DirCmp>>(sh, st); break;
+    case 3: drive_guarded<tlx::LoserTreePointer<true, Key, DirCmp>>(sh, st); break;
+    case 4: drive_unguarded<tlx::LoserTreeCopyUnguarded<false, Key, DirCmp>>(sh, *sentinel, st); break;
+    case 5: drive_unguarded<tlx::LoserTreeCopyUnguarded<true, Key, DirCmp>>(sh, *sentinel, st); break;
+    case 6: drive_unguarded<tlx::LoserTreePointerUnguarded<false, Key, DirCmp>>(sh, *sentinel, st); break;
+    default: drive_unguarded<tlx::LoserTreePointerUnguarded<true, Key, DirCmp>>(sh, *sentinel, st); break;
+    }
+
+    // ---- labels
+    static const char* const VL[8] = {"Copy/unstable",          "Copy/stable",          "Pointer/unstable",          "Pointer/stable",
+                                      "CopyUnguarded/unstable", "CopyUnguarded/stable", "PointerUnguarded/unstable", "PointerUnguarded/stable"};
+    pbt::label(VL[cfg]);
+    pbt::label(k <= 16 ? "k=1..16" : k <= 40 ? "k=17..40" : k <= 128 ? "k=41..128" : k <= 300 ? "k=129..300" : k <= 600 ? "k=301..600" : "k=601..1100");
+    if (k >= 31 && ((k + 1) & k) == 0) pbt::label("k=2^j-1");
+    if (k >= 31 && (k & (k - 1)) == 0) pbt::label("k=2^j");
+    if (k >= 31 && ((k - 1) & (k - 2)) == 0) pbt::label("k=2^j+1");
+    pbt::label(PROF[prof]);
+    pbt::label(KEYMODE[keymode]);
+    pbt::label(sh.desc ? "cmp=greater" : "cmp=less");
+    pbt::label(sh.arbitrary ? "streams_arbitrary" : "streams_sorted");
+    pbt::label(sh.order == 0 ? "insert_order=ascending" : "insert_order=other");
+    if (!unguarded) pbt::label(sh.storage == 0 || sh.variant == 0 ? "keys_in_stable_storage_or_copied" : sh.storage == 1 ? "keys_in_refilled_slots" : "keys_on_heap_freed");
+    if (st.started_exhausted) pbt::label("player_starts_exhausted");
+    if (st.exhausted_at_start * 2 > k) pbt::label("most_players_start_exhausted");
+    if (st.all_exhausted_at_start) pbt::label("all_exhausted_at_start");
+    if (st.tie_at_winner) pbt::label("tie_at_winner");
+    if (st.tie_lower_index_exists) pbt::label("stable_tie_decided");
+    if (st.replay_after_exhaustion) pbt::label("replay_after_exhaustion");
+    if (st.replays_after_exhaustion_n >= 100) pbt::label("replays_after_exhaustion>=100");
+    if (st.replays_after_exhaustion_n >= 1000) pbt::label("replays_after_exhaustion>=1000");
+    if (k >= 64 && st.replays_after_exhaustion_n >= 4 * k) pbt::label("k>=64_replays_after_exhaustion>=4k");
+    if (st.drained) pbt::label("drained_completely");
+    if (maxstream >= 1000) pbt::label("longest_stream>=1000");
+    pbt::label(total < 1000 ? "total_keys<1000" : total < 10000 ? "total_keys=1e3..1e4" : "total_keys=1e4..1e5");
+    pbt::label(st.replays < 100 ? "replays<100" : st.replays < 1000 ? "replays=100..999" : st.replays < 10000 ? "replays=1e3..1e4" : "replays>=1e4");
+    if (unguarded && st.replays >= 100) pbt::label("unguarded:replays>=100");
+    if (unguarded && st.replays >= 1000) pbt::label("unguarded:replays>=1000");
+    if (unguarded && k >= 64 && st.replays >= 2 * k) pbt::label("unguarded:k>=64_replays>=2k");
+    if (!unguarded && !st.drained && !st.all_exhausted_at_start) pbt::label("history_bound_hit");
+    const bool dup = keymode == 1 || keymode == 6 || total > nv; // some key value occurs twice (pigeonhole for the drawn modes)
+    bool dup2 = dup;
+    if (!dup2) {
+        std::vector<int> all;
+        for (auto& s : sh.stream)
+            for (auto& x : s) all.push_back(x.key);
+        std::sort(all.begin(), all.end());
+        for (size_t i = 1; i < all.size(); ++i) dup2 = dup2 || all[i] == all[i - 1];
+    }
+    if (k >= 3 && dup2 && (unguarded ? st.replays >= 1 : st.replay_after_exhaustion)) pbt::nontrivial();
 }
